@@ -35,7 +35,11 @@ func (w *world) doOp(op int, k int, allowCancel bool) (failed bool) {
 			sym.Assert(len(res) == 1, "Open must return one result per item")
 		}
 	case opDelete:
+		w.lastRemoveFailed = false
 		failed = c.Delete("/w/a") != nil
+		if !w.l.broken {
+			sym.Assert(failed == w.lastRemoveFailed, "Delete must report exactly the outcome of its own removal")
+		}
 	case opSymlink:
 		res, err := c.Symlink([]SymbolicLink{{LinkPath: "/w/l", Target: "/w/a"}})
 		failed = err != nil
@@ -141,10 +145,10 @@ func c10(nops int, breaks int, allowCancel bool) {
 		}
 	}
 	if !w.l.broken {
-		err := w.host.Ping()
+		failed := w.doOp(opPing, n+1, false)
 		if !w.l.broken { // the transport may be lost during this very call
 			sym.Reach("final-ping")
-			sym.Assert(err == nil, "the environment is unusable after a request- or program-caused failure")
+			sym.Assert(!failed, "the environment is unusable after a request- or program-caused failure")
 			sym.Assert(!w.initExited, "the container init exited although the transport is intact")
 		}
 	} else {
@@ -153,6 +157,20 @@ func c10(nops int, breaks int, allowCancel bool) {
 		sym.Reach("ping-after-loss")
 		sym.Assert(err != nil, "a call after the transport was lost must fail")
 	}
+}
+
+// VerifC14_DeleteSymlinkHistory: histories of two Delete/Symlink/Reset operations with
+// symbolic per-item outcomes followed by a Ping: every call gets its own answer.
+func VerifC14_DeleteSymlinkHistory() {
+	w := newWorld()
+	for k := 1; k <= 2; k++ {
+		op := []int{opDelete, opSymlink, opReset}[sym.Choose("op", 3)]
+		w.doOp(op, k, false)
+	}
+	failed := w.doOp(opPing, 3, false)
+	sym.Reach("final-ping")
+	sym.Assert(!failed, "the environment is unusable after failing file operations")
+	sym.Assert(!w.initExited, "the container init exited")
 }
 
 func VerifC10_Ops1()       { c10(1, 0, false) }
